@@ -1,7 +1,7 @@
 From Coq Require Import Extraction ExtrOcamlBasic NArith ZArith.
 From Common Require Import Conv.
 From Gen Require Import C12.
-From C12 Require Import Codec Model Model2.
+From C12 Require Import Codec Model Model2 Model3.
 (* Z.add .. N.modulo are listed so that the driver can convert 64-bit decimal
    numerals to and from the Coq numbers without going through OCaml's 63-bit int *)
 Extraction "c12_model.ml" conv_anchor
@@ -10,4 +10,5 @@ Extraction "c12_model.ml" conv_anchor
   M_encodeTime M_decodeTime M_head_encode M_head_decode
   M_maxp_encode M_maxp_decode
   M_post_encode_header M_post_decode_header
-  M_os2_encode M_os2_decode.
+  M_os2_encode M_os2_decode
+  M_derived M_version_round version_milli_string.
